@@ -73,9 +73,23 @@ def run(ctx, rep):
            'destroy() must free every managed object: it calls sweep() with the bitmap in state %s (sweep frees only objects that have a clear bit, so with a shorter/empty bitmap nothing or not everything is freed)'
            % sorted(set(probs)) if probs and not direct else 'destroy() frees every managed object', dest.loc())
     # ---- R04.3 ---------------------------------------------------------------------------------
+    def for_each_over(g, blocks, word, callees):
+        """`<something derived from `word`>.iter()...for_each(|x| callee(.., x))`: the standard library runs the closure once per
+        element; the closure (found through the value handed to for_each) calls one of `callees`"""
+        for b, t in g.calls(blocks):
+            if not callee_name(t).endswith(('::for_each', '::try_for_each')) or len(t['args']) != 2:
+                continue
+            if word not in str(sym(g, t['args'][0])):
+                continue
+            d = g.def_rvalue(t['args'][1])
+            cp = d[3].get('closure') if d and d[0] == 'assign' and d[3]['k'] == 'aggregate' else None
+            cf = F.fns.get(cp) if cp else None
+            if cf is not None and any(callee_name(t2) in callees for b2, t2 in cf.calls()):
+                return True
+        return False
     ca = tables.bytecode_builder(ctx)
     loops = ca.natural_loops()
-    okc = False
+    okc = for_each_over(ca, None, 'constants', (GCN + 'untrace',))
     for h, body in loops:
         unt = [b for b, t in ca.calls(body) if callee_name(t) == GCN + 'untrace']
         its = [str(sym(ca, t['args'][0])) for b, t in ca.calls() if callee_name(t).endswith('IntoIterator>::into_iter')]
@@ -87,7 +101,7 @@ def run(ctx, rep):
     dom = fn.dominators()
     pre = [b for b in dom[header] if b != header]
     pre_loops = [(h, body) for h, body in fn.natural_loops() if h != header and h in fn.reachable(0, stop={header})]
-    oka = False
+    oka = for_each_over(fn, set(fn.reachable(0, stop={header})), 'constants', (GCN + 'maybe_trace', GCN + 'trace'))
     for h, body in pre_loops:
         if any(callee_name(t) in (GCN + 'maybe_trace', GCN + 'trace') for b, t in fn.calls(body)):
             src = [str(sym(fn, t['args'][0])) for b, t in fn.calls() if callee_name(t).endswith('IntoIterator>::into_iter') and b in fn.reachable(0, stop={header})]
@@ -106,6 +120,12 @@ def run(ctx, rep):
     rep.ob(okh, 'R04.3', fn.path, 'result handed to the caller', 'Halt untraces exactly the value it returns, on the only Ok exit', 'src/vm.rs')
     # nobody else untraces
     ucs = sorted({f.path for f, b, t in F.callers_of(lambda p: p == GCN + 'untrace')})
+    # a closure belongs to the function it is written in (for a helper that was spliced in: to the function it was spliced into)
+    owners = {}
+    for (cr_, host), helpers in F.inlined.items():
+        for h_ in helpers:
+            owners[h_.split('::{closure')[0]] = host
+    ucs = sorted({owners.get(u.split('::{closure')[0], u.split('::{closure')[0]) for u in ucs})
     rep.ob(set(ucs) <= {ca.path, fn.path, GCN + 'untrace'}, 'R04.3', GCN + 'untrace', 'callers', 'ownership is given up only for constants and the final result: %s' % ucs, 'src/gc.rs')
     # ---- R04.4 ---------------------------------------------------------------------------------
     sw = F.fn(GCN + 'sweep')
